@@ -123,8 +123,9 @@ def cases_for(tier, rng):
             for st in range(1, n + 2):
                 for sz in (1, 2, 3):
                     for ck in ('list', 'tuple', 'gen', 'lazy'):
-                        for pre, rev in ((False, False), (True, False), (False, True)):
-                            blk = In(N('seq'), body(kind, pre, False), [T('EMPTY')], pre=pre, reverse=rev, start=st, size=sz)
+                        for pre, rev, be in ((False, False, False), (True, False, False), (False, True, False), (True, False, True),
+                                             (False, False, True)):
+                            blk = In(N('seq'), body(kind, pre, False), [T('EMPTY')], pre=pre, reverse=rev, start=st, size=sz, byend=be)
                             cases.append(dict(prog=[T('<'), blk, T('>'), V('x')],
                                               src=sources(kw={'seq': lst('S', items, ck), 'x': plain('outer-x')}), K=0, fk=[],
                                               svn=svn_table()))
